@@ -64,8 +64,8 @@ def run(tier, seed, replay):
             raise vc.ToolError("Heap.tla (HeapRepaired) does not hold:\n" + vc.tlc_error_text(res))
         rep.cov["heap_states"] = res.distinct
         neg = vc.tlc(work.dir, "Heap.tla", "HeapPinned.cfg", workers=4, timeout=600, xss="256m")
-        if "Invariant I1 is violated" not in neg.out:
-            raise vc.ToolError("negative control: Heap.tla with the pre-repair switches must violate I1")
+        if not any("Invariant %s is violated" % i in neg.out for i in ("I1", "I2", "I3")):
+            raise vc.ToolError("negative control: Heap.tla with the pre-repair switches must violate I1/I2/I3:\n" + vc.tlc_error_text(neg)[:600])
         # --- conformance
         uni = jqgen.input_universe()
         heapin = [jqgen.V(x) for x in ([0, 1, 2, 3], [0, 1], {"a": {"b": 1}}, {"a": [0, 1, 2], "b": {"x": {"b": 1}}}, [[0, 1], {"a": [2]}, 3], {"x": [1, 2, 3], "a": {"x": {"c": 1}}})]
